@@ -143,7 +143,10 @@ def parallel_map_site(ctx: Ctx):
     if not call.args:
         raise AnalysisError(f"{where(fn, call)}: parallel map without a positional worker argument")
     from ..types import FuncT
-    wt = ctx.t.type_of(fn, call.args[0])
+    warg = call.args[0]
+    if isinstance(warg, ast.Call) and ast.unparse(warg.func) in ("partial", "functools.partial") and warg.args:
+        warg = warg.args[0]             # partial(worker, <bound arguments>): the worker is the function that is bound
+    wt = ctx.t.type_of(fn, warg)
     if not isinstance(wt, FuncT):
         raise AnalysisError(f"{where(fn, call)}: worker passed to {name} is not a resolvable function")
     worker = wt.fn
